@@ -817,6 +817,14 @@ func (cx *Ctx) keyPrefix(v ssa.Value, fr *frame, depth int, out map[string]bool)
 			return
 		}
 		switch {
+		case (pkg == "bytes" && name == "Join" || pkg == "slices" && name == "Concat") && len(c.Args) >= 1:
+			// bytes.Join([][]byte{prefix, rest…}, sep) / slices.Concat(prefix, rest…): the first element leads
+			if els := variadicElems(c.Args[0]); len(els) > 0 && els[0] != nil {
+				cx.keyPrefix(els[0], fr, depth+1, out)
+				return
+			}
+			out["?"+pkg+"."+name] = true
+			return
 		case pkg == "fmt" && name == "Sprintf":
 			if cs, ok := c.Args[0].(*ssa.Const); ok && cs.Value.Kind() == constant.String {
 				f := constant.StringVal(cs.Value)
